@@ -225,6 +225,8 @@ func runC02(c *core.Ctx) {
 	nestedReports(c, pool, c.N(120, 1500), nestedRegShape)
 	// selected day = heading between the bounds as instants, also when heading and bound share a second
 	c06SubSecond(c, [][]string{{"reg"}, {"reg", "--csv"}, {"reg", "--use-old-reg-reporter"}})
+	// reports produced side by side in goroutines of one process, the program built with the race detector
+	parallelReports(c, c.N(40, 500), nestedRegShape)
 	jobs, deaths := pool.Stats()
 	c.Count("l2_jobs", jobs)
 	c.Count("l2_process_deaths", deaths)
